@@ -124,9 +124,18 @@ def lake_build(targets: list[str] | None = None, timeout=3000):
     return p.returncode == 0, (p.stdout + p.stderr)[-6000:], time.time() - t0
 
 
+def property_modules(pid: str) -> list[str]:
+    """Props/<pid>.lean plus continuation files Props/<pid><Suffix>.lean (suffix starting with a letter)."""
+    d = LEAN / "AspireModel" / "Props"
+    stems = [f.stem for f in sorted(d.glob(f"{pid}*.lean")) if f.stem == pid or f.stem[len(pid)].isalpha()]
+    if pid not in stems:
+        raise FileNotFoundError(pid)
+    return stems
+
+
 def property_theorems(pid: str) -> list[str]:
-    """Fully qualified names of the theorems declared in Props/<pid>.lean (tracks nested namespaces)."""
-    src = (LEAN / "AspireModel" / "Props" / f"{pid}.lean").read_text()
+    """Fully qualified names of the theorems declared in Props/<pid>*.lean (tracks nested namespaces)."""
+    src = "\n".join((LEAN / "AspireModel" / "Props" / f"{m}.lean").read_text() for m in property_modules(pid))
     src_nc = strip_lean_comments(src)
     stack, names = [], []
     for line in src_nc.split("\n"):
@@ -198,7 +207,7 @@ def proof_audit(pid: str, leanchecker: bool = False) -> dict:
     audit_dir = LEAN / ".lake" / "audit"
     audit_dir.mkdir(parents=True, exist_ok=True)
     af = audit_dir / f"Audit_{pid}.lean"
-    af.write_text(f"import {module}\n" + "".join(f"#print axioms {t}\n" for t in thms))
+    af.write_text("".join(f"import AspireModel.Props.{m}\n" for m in property_modules(pid)) + "".join(f"#print axioms {t}\n" for t in thms))
     p = subprocess.run(["lake", "env", "lean", str(af)], cwd=LEAN, capture_output=True, text=True, timeout=1800)
     text = p.stdout + p.stderr
     # parse: "'C02.foo' depends on axioms: [a, b]"  or "'C02.foo' does not depend on any axioms"
@@ -216,7 +225,7 @@ def proof_audit(pid: str, leanchecker: bool = False) -> dict:
     if res["failed"]:
         res["log"] = text[-4000:]
     if leanchecker:
-        q = subprocess.run(["lake", "env", "leanchecker", module], cwd=LEAN, capture_output=True, text=True, timeout=3000)
+        q = subprocess.run(["lake", "env", "leanchecker"] + [f"AspireModel.Props.{m}" for m in property_modules(pid)], cwd=LEAN, capture_output=True, text=True, timeout=3000)
         res["leanchecker_ok"] = q.returncode == 0
         res["leanchecker_log"] = (q.stdout + q.stderr)[-1500:]
     return res
@@ -284,7 +293,7 @@ class Check:
     # -- verdict
     def finish(self, audit: dict | None, search=None) -> int:
         pid = self.pid
-        REPLAYS.mkdir(exist_ok=True)
+        REPLAYS.mkdir(parents=True, exist_ok=True)
         proof_ok = bool(audit) and audit["build_ok"] and not audit["failed"] and not audit["forbidden"] and audit["theorems"]
         corr_ok = not self.disagreements
         for e in self.known:
@@ -342,15 +351,15 @@ class Check:
         path = REPLAYS / f"{self.pid}_{self.tier}_{self.seed}_{kind}.json"
         doc = {
             "property": self.pid, "tier": self.tier, "seed": self.seed, "kind": kind, "payload": payload,
-            "replay_cmd": f"./check {self.pid} --replay {path.relative_to(VERIF)}",
+            "replay_cmd": f"./check {self.pid} --replay {_rel(path)}",
         }
         if extra:
             doc.update(extra)
         path.write_text(json.dumps(doc, indent=1, default=_json_default))
-        return str(path.relative_to(VERIF))
+        return _rel(path)
 
     def _write_evidence(self, audit, rc):
-        EVIDENCE.mkdir(exist_ok=True)
+        EVIDENCE.mkdir(parents=True, exist_ok=True)
         audit = audit or {}
         cov = {
             "obligations": len(audit.get("theorems", [])),
@@ -413,6 +422,13 @@ def close(a: float, b: float, rtol: float, atol: float = 0.0) -> bool:
 def all_close(xs, ys, rtol, atol=0.0) -> bool:
     xs, ys = list(xs), list(ys)
     return len(xs) == len(ys) and all(close(float(a), float(b), rtol, atol) for a, b in zip(xs, ys))
+
+
+def _rel(path) -> str:
+    try:
+        return str(Path(path).relative_to(VERIF))
+    except ValueError:
+        return str(path)
 
 
 def setup_paths():
